@@ -776,12 +776,19 @@ def describe(tier):
                 'of frames shifted by -5 or +3.3 for T<=Tshift; threshold grid = 10 fixed values + the occurring worst-best '
                 'probability (+-1e-7) + the line confidence; all bag histories (18 adds + 4 weight assignments) up to bag_depth, '
                 'queried after every other event and at the end. state = distinct matrix / bag content. Non-trivial: a line with more '
-                'frames than labels (real alignment), or a bag history that changes lm_weight between queries with LM scores present.',
+                'frames than labels (real alignment), or a bag history that changes lm_weight between queries with LM scores present. '
+                'Page level: the matrix without frames; all matrices with T<=Texport x all alignable transcriptions x 6 states of the line\'s characters / '
+                'logit window x every non-empty subset of frames shifted (T<=Texport_shift), observed through PageParser.process_page, to_altoxml_string and '
+                'to_pagexml_string (non-trivial: the exporter has no alignment and reports its fall-back value); all histories of <= load_depth load_logits '
+                'calls over 16 files on one live PageLayout, exported after every load (non-trivial: the last two files differ in format or shape).',
         'bounds': BOUNDS[tier],
         'alphabets': {'rows': [[('floor' if v is None else v) for v in r] for r in ROWS], 'shifts': SHIFTS,
-                      'thresholds': [str(t) for t in BASE_T], 'bag_vis': BAG_VIS, 'bag_lm': [str(x) for x in BAG_LM], 'bag_weights': BAG_W},
+                      'thresholds': [str(t) for t in BASE_T], 'bag_vis': BAG_VIS, 'bag_lm': [str(x) for x in BAG_LM], 'bag_weights': BAG_W,
+                      'export_line_states': EXPORT_STATES, 'logits_files': [list(f) for f in LOAD_FILES]},
         'assumptions': ['tolerance 1e-9 on shift invariance and normalisation', 'alignment is computed once and reused for the shifted copy, '
-                        'so that round-off cannot flip a tie in the alignment'],
+                        'so that round-off cannot flip a tie in the alignment', 'shift invariance of an ALTO export that aligns the text itself is compared only where the '
+                        'alignment is forced (one frame per character); WC / conf are compared at the precision they are written with',
+                        'a line without frames, or a text longer than its line, may be refused (exception); a value that is reported must be a probability'],
         'min_nontrivial': 100,
         'required_tags': ['line-without-frames', 'page-with-a-line-without-frames', 'export-aligned', 'export-one-hot-line', 'export-alignment-unavailable', 'export-empty-window',
                           'export-shifted', 'logits-reloaded-on-a-live-page', 'older-format-loaded-over-current-format',
